@@ -218,6 +218,13 @@ def _i2_i3(prog, rep, tier, body, L):
         def entry(self, E_, nf, ins):
             bb = nf.path[-1][1]
             for st in ins:
+                if self.name == 'airborne_position':
+                    o = st.cells.get((nf.depth, 1))
+                    o = st.resolve(E_.expand(o)) if o is not None else A.BOT
+                    m = None
+                    if o != A.BOT and o[0] == 'R':
+                        m = _entry_field(E_, st, st.resolve(E_.expand(models.deref(E_, st, o))))
+                    st.tags = st.tags | {('PAIRMSG', m)}
                 vals = []
                 for i in range(1, nf.body['argc'] + 1):
                     v = st.cells.get((nf.depth, i))
@@ -267,8 +274,16 @@ def _i2_i3(prog, rep, tier, body, L):
         # cached previous position of this entry
         latest = st.resolve(E_.expand(E_.operand(st, frame, {'k': 'copy', 'pl': {'l': L['latest'], 'p': []}})))
         ent = models.deref(E_, st, latest) if latest != A.BOT and latest[0] == 'R' else None
+        par = None
+        if owner == 'AirbornePosition':
+            rec_ = st.resolve(E_.expand(E_.read_lv(st, E_.lvalue(st, frame, {'l': stmt['pl']['l'], 'p': stmt['pl']['p'][:-1]}), None)))
+            pi_ = _field(prog, 'decode::bds::bds05::AirbornePosition', 'parity')
+            if rec_ != A.BOT and rec_[0] == 'A' and pi_ is not None:
+                pv = st.resolve(E_.expand(rec_[1][pi_]))
+                if pv != A.BOT and pv[0] == 'E' and len(pv[2]) == 1:
+                    par = pv[2][0][0]
         tsv = E_.scalar(st, E_.operand(st, frame, {'k': 'copy', 'pl': {'l': L['timestamp'], 'p': []}}))
-        writes.append((owner, bb, stmt.get('sp'), known_bools(st), set(tg for tg in st.tags if tg[0] == 'SRC'), ent, st, tsv[4] if tsv[0] == 'F' else None, set(st.tags)))
+        writes.append((owner, bb, stmt.get('sp'), known_bools(st), set(tg for tg in st.tags if tg[0] == 'SRC'), ent, st, tsv[4] if tsv[0] == 'F' else None, set(st.tags), par))
     orig_assume = E.assume
 
     def assume(st, t, truth):
@@ -295,7 +310,7 @@ def _i2_i3(prog, rep, tier, body, L):
     rep.floor('position stores analysed', len(writes), 4)
     consts = {'pair': set(), 'ref': set(), 'air_gate': set(), 'surf_gate': set()}
     na = ns = 0
-    for owner, bb, sp, bools, tags, ent, st, t_ts, alltags in writes:
+    for owner, bb, sp, bools, tags, ent, st, t_ts, alltags, par in writes:
         where = '%s:%s' % (site, sp)
         srcs = sorted(set(tg[1] for tg in tags))
         if owner == 'AirbornePosition':
@@ -303,7 +318,16 @@ def _i2_i3(prog, rep, tier, body, L):
             key = 'airborne-store#%d' % na
             # not older than the cached opposite-parity message
             fts = _field(prog, 'decode::cpr::AircraftState', 'timestamp')
-            pair_fields = (_field(prog, 'decode::cpr::AircraftState', 'odd_ts'), _field(prog, 'decode::cpr::AircraftState', 'even_ts'))
+            slots = {0: ('odd_ts', 'odd_msg'), 1: ('even_ts', 'even_msg')}       # parity of the message -> slot of the other parity
+            exp = slots.get(par)
+            rep.check(exp is not None, 'I3-pairing', key + '#parity-known', where, 'the parity of the message being decoded is not determined on this path', nontrivial=False)
+            if exp is None:
+                continue
+            pair_fields = (_field(prog, 'decode::cpr::AircraftState', exp[0]),)
+            pm = [tg[1] for tg in alltags if tg[0] == 'PAIRMSG']
+            if 'airborne_position' in srcs:
+                rep.check(pm and all(m_ == _field(prog, 'decode::cpr::AircraftState', exp[1]) for m_ in pm), 'I3-pairing', key + '#opposite-slot', where,
+                          'the message paired with a parity-%d report comes from slot %s of the cache entry, expected %s' % (par, pm, exp[1]), nontrivial=True)
             times = [tg for tg in alltags if tg[0] == 'TIME']
             older = [tg for tg in times if tg[1] in pair_fields and tg[2] >= 0.0 and not tg[3]]
             rep.check(bool(older), 'I2-gates', key + '#not-older', where, 'a position is stored although `timestamp - t_pair < 0` was not ruled out (comparisons passed: %s)' % sorted(times, key=str), nontrivial=True)
@@ -394,6 +418,49 @@ def _i2_i3(prog, rep, tier, body, L):
         rep.check(ok, 'I3-pairing', 'airborne_position#arguments@%d' % bb, site, 'airborne_position must receive (cached opposite-parity message, current message): ' + why,
                   sample={'call block': bb, 'first': 'cached message of the entry', 'second': 'current message'})
     rep.ok('I2-gates', 'constants#extracted', False, {'extracted constants': {k: sorted(v) for k, v in consts.items()}})
+
+
+def _entry_field(E, st, v, depth=0):
+    """index of the cache-entry field a value was read from (origin ((<or_insert site>, '*'), k), ..)"""
+    def from_origin(o):
+        while isinstance(o, tuple) and len(o) >= 2:
+            if isinstance(o[0], tuple) and len(o[0]) == 2 and o[0][1] == '*' and isinstance(o[0][0], tuple) and o[0][0] and o[0][0][0] == 's' and isinstance(o[1], int):
+                return o[1]
+            o = o[0]
+        return None
+
+    def from_term(t, d=0):
+        if t is None or d > 30 or not isinstance(t, tuple):
+            return None
+        if t[0] in ('o', 'e', 'len') and len(t) > 1:
+            return from_origin(t[1])
+        for x in t[1:]:
+            if isinstance(x, tuple):
+                r = from_term(x, d + 1)
+                if r is not None:
+                    return r
+        return None
+    if v == A.BOT or depth > 4:
+        return None
+    if v[0] == 'T':
+        return from_origin(v[2]) if v[2] is not None else None
+    if v[0] in ('I', 'F'):
+        return from_term(v[4])
+    if v[0] == 'E':
+        r = from_term(v[1]) if v[1] is not None else None
+        if r is not None:
+            return r
+        for _, fs in v[2]:
+            for x in fs:
+                r = _entry_field(E, st, x, depth + 1)
+                if r is not None:
+                    return r
+    if v[0] == 'A':
+        for x in v[1]:
+            r = _entry_field(E, st, x, depth + 1)
+            if r is not None:
+                return r
+    return None
 
 
 def _field(prog, tyname, fname):
